@@ -37,7 +37,7 @@ class C04(ParamsProp):
     def corpus(self):
         return [dict(c) for c in CLAUSES] + super().corpus()
 
-    families = {"deep_ref_layers": 150, "repeated_layers": 60, "both_flags": 40, "many_refs": 50, "many_layers": 20, "same_value_layers": 40, "dup_in_one_mapping": 60}
+    families = {"deep_ref_layers": 150, "repeated_layers": 60, "both_flags": 40, "many_refs": 50, "many_layers": 20, "same_value_layers": 40, "dup_in_one_mapping": 60, "ref_layer_self_lookup": 60}
 
     def base_cases(self, tier, seed):
         N = 1200 if tier == "quick" else 30000
